@@ -291,6 +291,34 @@ def api_level(ck, dist) -> None:
                     if cur is None or cur.cid != cid0 or beats[-3:] != [600 * T, 900 * T, 1200 * T]:
                         ck.violation("heartbeats on an answered link are not every 300 s / reset the link",
                                      dict(replay, failure=f"version requests at {beats}, connection {'replaced' if cur is None or cur.cid != cid0 else 'kept'}"))
+                        continue
+                    # an outage that covers a heartbeat instant, with the send queue full of unexpired commands at that
+                    # instant (nothing can be sent then, and nothing may break): once the link is back the heartbeat goes
+                    # on - a version request 300 s after the previous tick, every 300 s
+                    from . import api_tie as AT
+                    rig.advance(t0 + 1480 * T - rig.now_ticks())   # 1480 s
+                    rig.net.accept = False
+                    rig.net.current().transport.peer_reset()
+                    rig.pump()
+                    rig.advance(10 * T)                        # 1490 s
+                    ac0 = rig.at.air_conditioners[0]
+                    for c in range(10):
+                        rig.start(ac0.set_power(AT.POWER_CTL[1 + c % 2]))
+                    rig.advance(15 * T)                        # 1505 s: the tick at 1500 s fell inside the outage
+                    rig.net.accept = True
+                    rig.advance(t0 + 2105 * T - rig.now_ticks())   # 2105 s
+                    beats = [int(round(q[0] * 1024)) - t0 for q in rig.console.requests[m0:] if q[2] == "version"]
+                    late = [b for b in beats if b > 1505 * T + 30 * T]
+                    dist["api_level_outage_over_a_tick"] += 1
+                    if late[:2] != [1800 * T, 2100 * T]:
+                        ck.violation("after an outage that covered a heartbeat instant (send queue full at that instant) the "
+                                     "heartbeat does not go on every 300 s",
+                                     dict(replay, kind="heartbeat-api-outage",
+                                          trigger={"class": "heartbeat-api-outage", "gen": gen},
+                                          history="init; answered heartbeats to 1200 s; link lost at 1480 s; ten power commands at 1490 s; "
+                                                  "link accepted again from 1505 s; observe to 2105 s",
+                                          failure=f"version requests after the outage at {[b / T for b in beats if b > 1480 * T]} s "
+                                                  f"(expected ... 1800, 2100)"))
             finally:
                 rig.close()
 
